@@ -222,10 +222,28 @@ GrammarReason(B, s, sql) ==
     IF ~p.ok THEN "rejected:" \o p.why
     ELSE LET m == Mismatch(p.v, Expected(B, s)) IN IF m = "" THEN "" ELSE "clause_differs:" \o m
 
+\* The constructs C08 names as belonging to one dialect, in the text for the other ("appear only in their own dialect").  Judged on
+\* every rendering, also of statements that are otherwise outside B's domain because they were given such a
+\* construct: the builder may leave it out there, it may not write it.
+ForeignReasons(B, sql) ==
+  LET T == Norm(Lex(B, sql))
+      W(i, u) == i \in DOMAIN T /\ T[i].k = "word" /\ T[i].u = u
+      Has2(a, b) == \E i \in DOMAIN T : W(i, a) /\ W(i + 1, b)
+      Has1(a) == \E i \in DOMAIN T : W(i, a)
+      F(c, n) == IF c THEN {"construct_of_another_dialect:" \o n} ELSE {}
+  IN IF B = "mysql" THEN
+       F(Has2("DISTINCT", "ON"), "DISTINCT_ON") \cup F(Has1("TABLESAMPLE"), "TABLESAMPLE") \cup F(Has1("ILIKE"), "ILIKE")
+       \cup F(Has2("NULLS", "FIRST") \/ Has2("NULLS", "LAST"), "NULLS_FIRST_LAST") \cup F(Has2("DEPTH", "FIRST") \/ Has2("BREADTH", "FIRST"), "SEARCH")
+       \cup F(\E i \in DOMAIN T : T[i].t = "::", "cast_operator")
+     ELSE IF B = "pg" THEN
+       F(Has2("DUPLICATE", "KEY"), "ON_DUPLICATE_KEY_UPDATE") \cup F(Has2("USE", "INDEX") \/ Has2("FORCE", "INDEX") \/ Has2("IGNORE", "INDEX"), "index_hint")
+     ELSE {}
+
 \* Set-valued form.  A statement whose named WINDOW clause is rejected for one of the recorded reasons is judged
 \* a second time without that clause, so that a recorded finding does not hide the rest of the statement.
 WindowWhy == {"clause_out_of_order:WINDOW_after_ORDER_LIMIT_or_lock", "clause_out_of_order:WINDOW_after_set_operation", "window_definition_not_parenthesised"}
 GrammarReasons(B, s, sql) ==
+  ForeignReasons(B, sql) \cup
   IF Unsupported(B, s) THEN {"?unsupported"}
   ELSE LET p == ParseStmt(B, sql) IN
     IF p.ok THEN (LET m == Mismatch(p.v, Expected(B, s)) IN IF m = "" THEN {} ELSE {"clause_differs:" \o m})
